@@ -15,10 +15,12 @@
 //   c15_codec record OUT seed quick|thorough
 //   c15_codec replay RECORDS.ndjson OUT        (re-drives the inputs of saved records)
 #include <common/vjson.hpp>
+#include <sys/time.h>
 
-#include <fcppt/extract_from_string.hpp>
+// round 3: headers used only by the observed-only part (outside the statement of C15).  When the tree under test no
+// longer compiles them, checks/c15.py builds the harness with -DC15_NO_OBSERVED, reports an observation and carries on.
+#ifndef C15_NO_OBSERVED
 #include <fcppt/char_literal.hpp>
-#include <fcppt/make_ref.hpp>
 #include <fcppt/make_strong_typedef.hpp>
 #include <fcppt/string_literal.hpp>
 #include <fcppt/strong_typedef.hpp>
@@ -41,6 +43,9 @@
 #include <fcppt/math/matrix/output.hpp>
 #include <fcppt/math/matrix/row.hpp>
 #include <fcppt/math/matrix/static.hpp>
+#endif
+#include <fcppt/extract_from_string.hpp>
+#include <fcppt/make_ref.hpp>
 #include <fcppt/output_to_string_locale.hpp>
 #include <fcppt/output_to_std_wstring_locale.hpp>
 #include <fcppt/output_to_std_string_locale.hpp>
@@ -53,6 +58,12 @@
 #include <fcppt/no_init.hpp>
 #include <fcppt/output_to_fcppt_string.hpp>
 #include <fcppt/output_to_std_string.hpp>
+#include <fcppt/enum/size.hpp>
+#include <fcppt/from_std_string.hpp>
+#include <fcppt/from_std_string_locale.hpp>
+#include <fcppt/to_std_string.hpp>
+#include <fcppt/to_std_string_locale.hpp>
+#include <fcppt/optional_std_string.hpp>
 #include <fcppt/output_to_std_wstring.hpp>
 #include <fcppt/output_to_string.hpp>
 #include <fcppt/string.hpp>
@@ -348,9 +359,24 @@ C15_TNAME(wchar_t, "wchar_t")
 
 long long records = 0;
 
+// ---- per-call watchdog (round 3): every driven call re-arms a CPU-time timer (ITIMER_VIRTUAL: user
+// time of this process only, so a loaded machine cannot fire it); a call that spins for WD_SECS of CPU
+// ends the process with a {"e":"crash","what":"hang"} line and rc 68 while the partial line names the call.
+constexpr int WD_SECS = 20;
+void wd_fire(int) { vj::crash_line("hang", SIGVTALRM); _exit(68); }
+void wd_arm()
+{
+  static bool installed = false;
+  if (!installed) { std::signal(SIGVTALRM, wd_fire); installed = true; }
+  struct itimerval t{};
+  t.it_value.tv_sec = WD_SECS;
+  setitimer(ITIMER_VIRTUAL, &t, nullptr);
+}
+void wd_begin(std::string const &prefix) { wd_arm(); vj::begin_call(prefix); }
+
 void emit(vj::J const &pre, std::function<void(vj::J &)> const &call)
 {
-  vj::begin_call(pre.s);
+  wd_begin(pre.s);
   vj::J rest('{');
   rest.s.clear();
   rest.first = false;
@@ -574,7 +600,7 @@ fcppt::optional::object<E> stream_in(std::basic_string<Ch> const &text)
 }
 
 template <typename E>
-void drive_enum(char const *name, int const i)
+void drive_enum(char const *name, int const i, int const size)
 {
   E const e = static_cast<E>(i); // i is an enumerator index of E (generator precondition)
   vj::J pre;
@@ -591,6 +617,28 @@ void drive_enum(char const *name, int const i)
     wos << e;
     r.kv("wos", ascii_of(wos.str()));
     r.raw("wis", opt_enum_json(stream_in<E, wchar_t>(wos.str())));
+    // round 3: several enumerators on one stream, separated by blanks, read back one after the other
+    if (size > 0)
+    {
+      E const e2 = static_cast<E>((i + 1) % size);
+      r.kv("j", (i + 1) % size);
+      auto const seq = [&]<typename Ch>(Ch, char const *tk, char const *rk) {
+        std::basic_ostringstream<Ch> so;
+        so << e << so.widen(' ') << e2 << so.widen(' ') << so.widen(' ') << e;
+        r.kv(tk, ascii_of(so.str()));
+        std::basic_istringstream<Ch> si(so.str());
+        std::string reads = "[";
+        for (int k = 0; k < 3; ++k)
+        {
+          E x{};
+          bool const ok = static_cast<bool>(si >> x);
+          reads += (k ? "," : "") + opt_enum_json(ok ? fcppt::optional::object<E>{x} : fcppt::optional::object<E>{});
+        }
+        r.raw(rk, reads + "]");
+      };
+      seq(char{}, "sqt", "sq");
+      seq(wchar_t{}, "wsqt", "wsq");
+    }
   });
 }
 
@@ -886,6 +934,18 @@ void drive_utf8(std::string const &api, std::vector<long long> const &w, bool co
     if (nb.has_value()) widen_rec(r, "rtok", "rt", nb.get_unsafe());
     else r.kv("rtok", false).raw("rt", "[]");
     if (has_gb) widen_rec(r, "wok", "ww", string_of_bytes(gb));
+    // round 3: "to/from fcppt::string" also names from_std_string / to_std_string (and the *_locale forms);
+    // fcppt::string is std::string in this build, so they must hand every byte string through unchanged
+    if (has_gb && (api == "fcppt" || api == "fcppt_locale"))
+    {
+      static_assert(std::is_same_v<fcppt::string, std::string>, "narrow fcppt::string expected");
+      std::string const in = string_of_bytes(gb);
+      fcppt::string const fs = api == "fcppt" ? fcppt::from_std_string(in) : fcppt::from_std_string_locale(in, utf8_locale());
+      r.kv("fsb", bytes_of(fs));
+      fcppt::optional_std_string const ts =
+          api == "fcppt" ? fcppt::to_std_string(fcppt::string{in}) : fcppt::to_std_string_locale(fcppt::string{in}, utf8_locale());
+      r.kv("tsok", ts.has_value()).kv("tsb", ts.has_value() ? bytes_of(ts.get_unsafe()) : std::vector<int>{});
+    }
   });
 }
 
@@ -1044,7 +1104,7 @@ void dec_over_family(std::vector<std::string> const &texts)
 template <typename E>
 void enum_family(char const *name, int const size, std::vector<std::string> const &tokens)
 {
-  for (int i = 0; i < size; ++i) drive_enum<E>(name, i);
+  for (int i = 0; i < size; ++i) drive_enum<E>(name, i, size);
   for (auto const &t : tokens) drive_enum_from<E>(name, t);
 }
 
@@ -1055,6 +1115,7 @@ std::vector<ull> all_values(unsigned const bits)
   return v;
 }
 
+#ifndef C15_NO_OBSERVED
 // ============================================================================== extension round
 // Everything below is outside the statement of C15 and is OBSERVED ONLY by the judge.
 
@@ -1425,16 +1486,37 @@ void extension_records(vj::Rng &r, bool const thorough)
   C15_LITERAL("0123456789 the quick brown fox jumps over the lazy dog", '~')
 }
 
+#endif // C15_NO_OBSERVED
+
+// Sections (round 3): the enumeration is cut into numbered sections; the number of the running section
+// is written to OUT.sec, and `record OUT seed tier FROM` skips the sections below FROM.  After a crash /
+// hang inside one section the check restarts the harness behind it, so that one dying call does not
+// hide the other record kinds.  Every section draws from its own generator (seed, section).  The
+// observed-only records (outside the statement of C15) are driven last.
+std::string sec_path;
+int sec_from = 0;
+int sec_now = 0;
+bool sec_begin(vj::Rng &r, std::uint64_t const seed)
+{
+  ++sec_now;
+  r = vj::Rng(seed * 1000003ULL + static_cast<std::uint64_t>(sec_now));
+  if (sec_now < sec_from) return false;
+  if (FILE *f = std::fopen(sec_path.c_str(), "w"))
+  {
+    std::fprintf(f, "%d\n", sec_now);
+    std::fclose(f);
+  }
+  return true;
+}
+
 void record(std::uint64_t const seed, bool const thorough)
 {
   vj::Rng r(seed);
-  {
-    vj::Rng er(seed * 131ULL + 5ULL);
-    extension_records(er, thorough);
-    vecseq_records(er, thorough);
-  }
+  if (sec_begin(r, seed)) vecseq_records(r, thorough);
   std::size_t const nrand = thorough ? 40000 : 4096;
   // ---- binary
+  if (sec_begin(r, seed))
+  {
   io_family<signed char>(all_values(8), 1, r);
   io_family<unsigned char>(all_values(8), 1, r);
   io_family<char>(all_values(8), 1, r);
@@ -1448,9 +1530,12 @@ void record(std::uint64_t const seed, bool const thorough)
   io_family<unsigned long>(lattice(64, r, nrand), 1, r);
   io_family<long long>(lattice(64, r, nrand / 8), 1, r);
   io_family<unsigned long long>(lattice(64, r, nrand / 8), 1, r);
-  io_family<float>(float_patterns(32, r, nrand), 0, r);
-  io_family<double>(float_patterns(64, r, nrand), 0, r);
+  io_family<float>(float_patterns(32, r, nrand), 5, r); // round 3: swap is defined for every arithmetic type
+  io_family<double>(float_patterns(64, r, nrand), 5, r);
+  }
   // ---- decimal text
+  if (sec_begin(r, seed))
+  {
   dec_family<short>(all_values(16), false, thorough ? 1 : 11);
   dec_family<unsigned short>(all_values(16), false, thorough ? 1 : 11);
   dec_family<int>(lattice(32, r, nrand / 2), true, 1);
@@ -1459,6 +1544,8 @@ void record(std::uint64_t const seed, bool const thorough)
   dec_family<unsigned long>(lattice(64, r, nrand / 2), true, 1);
   dec_family<long long>(lattice(64, r, nrand / 8), true, 1);
   dec_family<unsigned long long>(lattice(64, r, nrand / 8), true, 1);
+  }
+  if (sec_begin(r, seed))
   {
     std::vector<std::string> texts;
     for (ull p : lattice(64, r, nrand / 4))
@@ -1479,6 +1566,7 @@ void record(std::uint64_t const seed, bool const thorough)
     dec_over_family<unsigned long>(texts);
   }
   // ---- decimal text with explicitly passed locales (numpunct facets), global locale classic / other
+  if (sec_begin(r, seed))
   {
     std::vector<ull> small;
     for (ull i = 0; i < 65536; i += (thorough ? 1 : 13)) small.push_back(i);
@@ -1493,6 +1581,7 @@ void record(std::uint64_t const seed, bool const thorough)
     dec_loc_family<unsigned long long>(lattice(64, r, nrand / 16), 2);
   }
   // ---- enums
+  if (sec_begin(r, seed))
   {
     std::vector<std::string> names = {"solo", "red", "green", "blue", "a", "ab", "abc", "B", "b_", "zero0", "x-y", "Ab",
                                       "last", "north", "east", "south", "west", "up"};
@@ -1519,6 +1608,7 @@ void record(std::uint64_t const seed, bool const thorough)
     enum_family<E5u8>("E5u8", 5, tokens);
   }
   // ---- vectors / dims: all small integer vectors, then boundary / random components
+  if (sec_begin(r, seed))
   {
     struct Shape
     {
@@ -1573,6 +1663,7 @@ void record(std::uint64_t const seed, bool const thorough)
     }
   }
   // ---- UTF-8: every (sampled) scalar value singly
+  if (sec_begin(r, seed))
   {
     long long const boundaries[] = {1, 0x7F, 0x80, 0x7FF, 0x800, 0xFFF, 0x1000, 0xD7FF, 0xE000, 0xFFFD, 0xFFFF, 0x10000,
                                     0x1FFFF, 0x3FFFF, 0x40000, 0xFFFFF, 0x100000, 0x10FFFF, 0x20AC, 0xE9, 0x1F600};
@@ -1610,7 +1701,10 @@ void record(std::uint64_t const seed, bool const thorough)
   }
   // ---- UTF-8: strings up to 40 characters; every mix of encoded lengths, so that every
   //      output-buffer growth step of impl/codecvt.hpp is crossed
+  if (sec_begin(r, seed))
   {
+    // round 3: the empty string is a string of valid characters too
+    for (int a = 0; a < 4; ++a) drive_utf8(utf8_apis[a], {}, true, {}, "string");
     int const patterns = 10;
     int const reps = thorough ? 24 : 2;
     for (int len = 1; len <= 40; ++len)
@@ -1663,6 +1757,11 @@ void record(std::uint64_t const seed, bool const thorough)
       drive_utf8(utf8_apis[j % 4], w, true, gb, cut ? "cut" : "string");
     }
   }
+  // ---- observed only (outside the statement of C15): driven last
+#ifndef C15_NO_OBSERVED
+  if (sec_begin(r, seed)) extension_records(r, thorough);
+#endif
+  // further sections are appended below this line (the check relies on: last section = sec_now at exit)
 }
 
 template <typename F>
@@ -1753,7 +1852,7 @@ bool replay_one(vj::V const &e)
       drive_dec_over<T>(t, e.str("ch") == "w");
     });
   if (f == "enum")
-    return with_enum(e.str("E"), [&]<typename E>(E *, char const *n) { drive_enum<E>(n, static_cast<int>(e.num("i"))); });
+    return with_enum(e.str("E"), [&]<typename E>(E *, char const *n) { drive_enum<E>(n, static_cast<int>(e.num("i")), e.has("j") ? static_cast<int>(fcppt::enum_::size<E>::value) : 0); });
   if (f == "enum_from")
     return with_enum(e.str("E"), [&]<typename E>(E *, char const *n) { drive_enum_from<E>(n, e.str("s")); });
   if (f == "vec")
@@ -1807,6 +1906,8 @@ int main(int argc, char **argv)
   if (mode == "record")
   {
     vj::open(argv[2]);
+    sec_path = std::string(argv[2]) + ".sec";
+    sec_from = argc > 5 ? std::atoi(argv[5]) : 0;
     record(std::strtoull(argv[3], nullptr, 10), argc > 4 && std::string(argv[4]) == "thorough");
     vj::close();
     return 0;
